@@ -239,6 +239,73 @@ def gen_problem(rng, fmt="LP", repair=True, big=True, ncols=None, nrows=None, in
                 cols=[tuple(c) for c in cols], rows=[tuple(r) for r in rows])
 
 
+def gen_problem_wrap(rng, fmt="LP"):
+    """long objective and rows: every column has a non-zero objective coefficient of random sign and appears in the
+    first row, names of 8..40 characters and rationals of some length: the LP writer wraps the objective (>= 4 terms and
+    >= 256 characters) and the rows (>= 256 characters) several times, with both signs on either side of the wrap points"""
+    n = rng.choice([24, 40, 60])
+    m = rng.choice([1, 2, 3])
+    taken = set()
+    cn = []
+    while len(cn) < n:
+        nm = rng.choice("xyzuvw") + "".join(rng.choice(string.ascii_lowercase + string.digits + "_") for _ in range(rng.choice([3, 7, 15, 39])))
+        if nm not in taken and not nm.lower().startswith("inf") and not nm.lower().startswith("free"):
+            taken.add(nm)
+            cn.append(nm)
+    rn = unique_names(rng, m, fmt, False, taken, plain=True)
+
+    def num():
+        k = rng.random()
+        v = F(rng.randint(1, 9)) if k < 0.3 else F(rng.randint(1, 10 ** 6), rng.randint(1, 10 ** 4)) if k < 0.8 else F(1)
+        return v if rng.random() < 0.5 else -v
+    cols = []
+    for j in range(n):
+        lo, up = rand_bounds(rng, False)
+        obj = num() if rng.random() < 0.9 else F(0)
+        cols.append((cn[j], obj, lo, up, rng.random() < 0.1))
+    rows = []
+    for i in range(m):
+        ent = [(cn[j], num()) for j in range(n) if i == 0 or rng.random() < 0.5]
+        s = rng.choice("LGER")
+        rows.append((rn[i], s, num(), (abs(num()) if s == "R" else F(0)), ent))
+    return dict(name="w" + str(rng.randint(0, 999)), max=rng.random() < 0.5, cols=cols, rows=rows)
+
+
+def gen_problem_kwbounds(rng, fmt="LP"):
+    """columns whose names spell keywords of the LP format (a keyword is one only in column 1) with free, upper-only,
+    lower-only, fixed and boxed bounds; some of them integer"""
+    kws = ["end", "min", "max", "int", "st", "bound", "bounds", "integer", "subject", "minimize", "maximize", "End", "END", "Max", "ST", "Int",
+           "problem", "prob", "minimum", "maximum",
+           # names that only START like the words the bounds reader knows (inf, infinity, free)
+           "free2", "freedom", "Free_x", "infx", "inf1", "INFINITYx", "Inf_", "infinit"]
+    n = rng.choice([2, 3, 5, 8])
+    rng.shuffle(kws)
+    cn = kws[:n]
+    if rng.random() < 0.5:
+        cn[rng.randrange(n)] = "x%d" % rng.randint(0, 9)
+    taken = set(cn)
+    m = rng.choice([1, 2, 3])
+    rn = unique_names(rng, m, fmt, False, taken)
+    cols = []
+    for j in range(n):
+        k = rng.choice(["free", "free", "up", "up", "negup", "lo", "lo", "lo", "fixed", "box", "default"])
+        a, b = sorted([F(rng.randint(-9, 9)), F(rng.randint(-9, 9), rng.randint(1, 3))])
+        lo, up = {"free": (NINF, INF), "up": (F(0), abs(b) + 1), "negup": (NINF, -abs(b) - 1), "lo": (abs(a) + 1, INF), "fixed": (a, a),
+                  "box": (a, b), "default": (F(0), INF)}[k]
+        cols.append((cn[j], F(rng.randint(-5, 5)), lo, up, rng.random() < 0.25))
+    # a name that starts like free / inf directly after a lower-bound-only column: the reader looks for the word "free" there
+    for j in range(1, n):
+        if cn[j].lower().startswith(("free", "inf")) and rng.random() < 0.8:
+            c = cols[j - 1]
+            cols[j - 1] = (c[0], c[1], F(rng.randint(1, 9)), INF, False)
+    rows = []
+    for i in range(m):
+        ent = [(cn[j], F(rng.choice([-3, -2, -1, 1, 2, 3]))) for j in range(n) if i == 0 or rng.random() < 0.6]
+        s = rng.choice("LGER")
+        rows.append((rn[i], s, F(rng.randint(-9, 9)), (F(rng.randint(1, 5)) if s == "R" else F(0)), ent))
+    return dict(name="k" + str(rng.randint(0, 999)), max=rng.random() < 0.5, cols=cols, rows=rows)
+
+
 def small_problem(rng, n=None, m=None, name="s"):
     """small LP with plain names (C14 / C19)"""
     return gen_problem(rng, "LP", repair=False, big=False, ncols=n or rng.randint(1, 5), nrows=m or rng.randint(1, 4), ints=False, name=name, plain=True)
